@@ -139,6 +139,15 @@ func (inst *instance) ShutdownAdmin() {
 	})
 }
 
+// ShutdownLocalConf shutdowns the local conf store.
+//
+// NOTE: The method must be defined here, otherwise the call is promoted to the
+// embedded Restarter, whose Instance is this very instance, and recurses until
+// the stack overflows. There is no local conf store to shutdown any more.
+func (inst *instance) ShutdownLocalConf() {
+	logger.Infof("Shutdown local conf store...")
+}
+
 // DrainListeners drains the listeners.
 func (inst *instance) DrainListeners() {
 	inst.drainListenersOnce.Do(func() {
